@@ -1,5 +1,5 @@
 (* C11 — no torn values, no corrupted structure under concurrent use. Table level (HtableLtsProofs.v): the (key, value) a lock-free lookup returns are fields of ONE item object created by ONE write (items are never mutated), the per-instant well-formedness invariant WFc holds in EVERY reachable state including between the two stores of an operation, and replaced arrays are frozen. Data-race freedom in the Go memory model sense is outside the model (trusted base item 6); the conc stream runs under -race in the thorough tier. Only `exact` + Print Assumptions. Read-sample ring (ReadBuffer.v, tied by the rb stream): indices stay in range and nothing is fabricated under any interleaving of wait-free producers and the single consumer. Locked structures (MutexAtomicity.v): every reader under the RWMutex sees a state satisfying the invariant preserved by lock-protected bodies. *)
-Require Import KV.Base KV.HtableModel KV.HtableProofs KV.HtableTrace KV.HtableLts KV.HtableLtsProofs KV.ReadBuffer KV.MutexAtomicity.
+Require Import KV.Base KV.HtableModel KV.HtableProofs KV.HtableTrace KV.HtableLts KV.HtableLtsProofs KV.ReadBuffer KV.MutexAtomicity KV.PtrModel KV.PtrProofs.
 Open Scope Z_scope.
 
 (* a hit's key and value come from one item object of one write *)
@@ -147,6 +147,123 @@ Theorem c11_locked_mutual_exclusion :
          (forall t1 t2 : nat, holds_outer st t1 -> holds_outer st t2 -> t1 = t2).
 Proof. exact MutexAtomicity.mutual_exclusion. Qed.
 
+(* pointer level: addToLRUHead keeps the list doubly linked and touches only the head sentinel, the item and the old first node *)
+Theorem c11_ptr_lru_add :
+  forall (s : pstate) (it : Z) (l : list Z),
+         dll (hp s) lruHead lruTail l ->
+         ~ In it l ->
+         it <> lruHead ->
+         it <> lruTail ->
+         it <> 0 ->
+         let s' := lru_add s it in
+         dll (hp s') lruHead lruTail (it :: l) /\
+         perr s' = perr s /\
+         (forall x : Z, x <> lruHead -> x <> it -> x <> hd lruTail l -> hp s' x = hp s x) /\
+         (forall x : Z,
+          pq (hp s' x) = pq (hp s x) /\
+          pown (hp s' x) = pown (hp s x) /\
+          pvis (hp s' x) = pvis (hp s x) /\ preuse (hp s' x) = preuse (hp s x)) /\
+         prob s' = prob s /\ mainq s' = mainq s /\ hand s' = hand s /\ maincap s' = maincap s.
+Proof. exact lru_add_dll. Qed.
+
+(* pointer level: removeFromLRU unlinks exactly the item (its links become nil), frame preserved *)
+Theorem c11_ptr_lru_remove :
+  forall (s : pstate) (it : Z) (l : list Z),
+         dll (hp s) lruHead lruTail l ->
+         In it l ->
+         let s' := lru_remove s it in
+         dll (hp s') lruHead lruTail (CacheModel.remz l it) /\
+         perr s' = perr s /\
+         pprev (hp s' it) = 0 /\
+         pnext (hp s' it) = 0 /\
+         (forall x : Z, x <> it -> x <> pprev (hp s it) -> x <> pnext (hp s it) -> hp s' x = hp s x) /\
+         (forall x : Z,
+          pq (hp s' x) = pq (hp s x) /\
+          pown (hp s' x) = pown (hp s x) /\
+          pvis (hp s' x) = pvis (hp s x) /\ preuse (hp s' x) = preuse (hp s x)) /\
+         prob s' = prob s /\ mainq s' = mainq s /\ hand s' = hand s /\ maincap s' = maincap s.
+Proof. exact lru_remove_dll. Qed.
+
+(* pointer level: sieve.remove of a main member keeps both queues well formed and repairs the hand with the predecessor rule *)
+Theorem c11_ptr_sieve_remove :
+  forall (s : pstate) (P M : list Z) (it : Z),
+         SInv s P M ->
+         In it M ->
+         let s' := fst (sieve_remove s it) in
+         snd (sieve_remove s it) = true /\
+         SInv s' P (CacheModel.remz M it) /\
+         hand s' = (if hand s =? it then aprev M it else hand s) /\
+         preuse (hp s' it) = 0 /\
+         pvis (hp s' it) = false /\
+         maincap s' = maincap s /\
+         (forall x : Z,
+          x <> it -> pvis (hp s' x) = pvis (hp s x) /\ preuse (hp s' x) = preuse (hp s x)).
+Proof. exact sieve_remove_main. Qed.
+
+(* pointer level: replaceNode substitutes the new node in place in whichever queue held the old one, moves the hand with it, leaves the old node unlinked *)
+Theorem c11_ptr_sieve_replace :
+  forall (s : pstate) (P M : list Z) (old new : Z),
+         SInv s P M ->
+         In old (P ++ M) ->
+         0 < new ->
+         ~ In new (P ++ M) ->
+         let s' := sieve_replace s old new in
+         SInv s' (subst_ptr P old new) (subst_ptr M old new) /\
+         hand s' = (if hand s =? old then new else hand s) /\
+         preuse (hp s' new) = preuse (hp s old) /\
+         pvis (hp s' new) = pvis (hp s old) || pvis (hp s new) /\
+         pq (hp s' old) = qNone /\
+         pprev (hp s' old) = 0 /\
+         pnext (hp s' old) = 0 /\
+         maincap s' = maincap s /\
+         (forall x : Z,
+          x <> new -> pvis (hp s' x) = pvis (hp s x) /\ preuse (hp s' x) = preuse (hp s x)).
+Proof. exact sieve_replace_spec. Qed.
+
+(* pointer level: the SIEVE hand scan changes only visited/reuse bits and the hand, keeps both queues intact, and returns nil or a main member *)
+Theorem c11_ptr_find_victim :
+  forall (s : pstate) (P M : list Z) (scan : Z) (force : bool),
+         SInv s P M ->
+         exists (s' : pstate) (v : Z),
+           find_main_victim_p s scan force = (s', v) /\
+           afind_main (absM (hp s) M) (hand s) scan force = (absM (hp s') M, hand s', v) /\
+           SInv s' P M /\
+           maincap s' = maincap s /\
+           (forall x : Z, ~ In x M -> hp s' x = hp s x) /\
+           (v = 0 \/ In v M /\ (force = false -> pvis (hp s' v) = false)) /\
+           (M = [] -> v = 0) /\ (force = true -> M <> [] -> In v M).
+Proof. exact find_main_victim_p_spec. Qed.
+
+(* the pointer-level hand scan computes the same victim, hand and bits as CacheModel.find_main_victim (the list-level model the cache theorems use) *)
+Theorem c11_ptr_find_victim_refines :
+  forall (s : pstate) (P M : list Z) (sh : CacheModel.shard) (scan : Z) (force : bool),
+         SInv s P M ->
+         absM (hp s) M = absI (CacheModel.main sh) ->
+         hand s = oz (CacheModel.hand sh) ->
+         let r := find_main_victim_p s scan force in
+         let a := CacheModel.find_main_victim sh scan force in
+         snd r = oz (snd a) /\
+         hand (fst r) = oz (CacheModel.hand (fst a)) /\
+         absM (hp (fst r)) M = absI (CacheModel.main (fst a)) /\
+         SInv (fst r) P M /\
+         map CacheModel.key (CacheModel.main (fst a)) = M /\
+         CacheModel.prob (fst a) = CacheModel.prob sh.
+Proof. exact find_main_victim_refines. Qed.
+
+(* resetting the queues while items are still linked leaves stale tags (refuted clause; reset is only reached from Clear, which drops every item) *)
+Theorem c11_ptr_sieve_init_refuted :
+  let s := sieve_insert_prob (pinit 7 4) 1 in
+         SInv s [1] [] /\
+         ~ SInv (sieve_init s) [] [] /\ holds (hp (sieve_init s)) (prob (sieve_init s)) 1 = true.
+Proof. exact sieve_init_refuted. Qed.
+
+(* pointer level: walking the LFU ring from the sentinel visits exactly the abstract buckets and returns to the sentinel *)
+Theorem c11_ptr_lfu_walk :
+  forall (l : lfu) (b : list (Z * list Z)) (fuel : nat),
+         LfuRing.LInv l b ->
+         (length b < fuel)%nat -> LfuRing.ring_buckets fuel l (fnext (fh l (fhead l))) = b.
+Proof. exact LfuRing.linv_walk. Qed.
+
 Print Assumptions c11_single_item_snapshot.
 Print Assumptions c11_structure_every_instant.
 Print Assumptions c11_old_arrays_frozen.
@@ -161,3 +278,11 @@ Print Assumptions c11_readbuffer_window.
 Print Assumptions c11_readbuffer_lapped_example.
 Print Assumptions c11_locked_reader_sees_invariant.
 Print Assumptions c11_locked_mutual_exclusion.
+Print Assumptions c11_ptr_lru_add.
+Print Assumptions c11_ptr_lru_remove.
+Print Assumptions c11_ptr_sieve_remove.
+Print Assumptions c11_ptr_sieve_replace.
+Print Assumptions c11_ptr_find_victim.
+Print Assumptions c11_ptr_find_victim_refines.
+Print Assumptions c11_ptr_sieve_init_refuted.
+Print Assumptions c11_ptr_lfu_walk.
